@@ -2077,6 +2077,48 @@ def shallowcache(program, m, fn):
 
 
 # --------------------------------------------------------------------------
+# AXISORDER
+# --------------------------------------------------------------------------
+def _axis_of(name):
+    import re
+    m = re.search(r"(?:^|_)([xyz])\d?$", name)
+    return m.group(1) if m else None
+
+
+def axisorder(fn):
+    """The pairs of one collection are unpacked in one place as ``x, ..``
+    and in another as ``y, ..`` (``max(x for x, _ in chips)`` ... ``max(y
+    for y, _ in chips)``): one position of the pair is given the names of
+    two different coordinates - one of the two reads the wrong one."""
+    out = []
+    seen = {}       # dump of iterable -> {position: (axis, node)}
+    for n in _own_nodes(fn, into_lambdas=True):
+        it = tg = None
+        if isinstance(n, (ast.For, ast.comprehension)):
+            it, tg = n.iter, n.target
+        if it is None or not isinstance(tg, (ast.Tuple, ast.List)) or \
+                not isinstance(it, (ast.Name, ast.Attribute)):
+            continue
+        key = (ast.dump(it), len(tg.elts))
+        for i, t in enumerate(tg.elts):
+            if not isinstance(t, ast.Name):
+                continue
+            ax = _axis_of(t.id)
+            if ax is None:
+                continue
+            prev = seen.setdefault(key, {}).get(i)
+            if prev is not None and prev[0] != ax:
+                out.append((t, "item %d of the elements of %s is called "
+                            "%s here and %s at line %d: the same position "
+                            "of the pair is read as two different "
+                            "coordinates" % (i, _txt(it, 30), t.id,
+                                             prev[1].id, prev[1].lineno)))
+            elif prev is None:
+                seen[key][i] = (ax, t)
+    return out
+
+
+# --------------------------------------------------------------------------
 # CACHEDMUT
 # --------------------------------------------------------------------------
 _MUT_CTORS = {"dict", "list", "set", "bytearray", "defaultdict",
@@ -2119,6 +2161,28 @@ def cachedmut(fn):
     if not hit:
         return []
     out = []
+    # ... or whose result depends on something outside its arguments (the
+    # contents of a file, the clock, a random draw): the cache goes on
+    # answering with what was true at the first call
+    for c in _own_nodes(fn):
+        if isinstance(c, ast.Call):
+            f = c.func
+            nm = f.id if isinstance(f, ast.Name) else None
+            root = f
+            while isinstance(root, ast.Attribute):
+                root = root.value
+            rn = root.id if isinstance(root, ast.Name) else None
+            if nm == "open" or (isinstance(f, ast.Attribute) and rn in (
+                    "os", "time", "random", "socket", "io", "pkg_resources")
+                    and f.attr not in ("join", "basename", "dirname",
+                                       "splitext", "resource_filename")):
+                out.append((c, "%s is decorated with %s but its result "
+                            "depends on %s, which is not among its "
+                            "arguments: later calls with the same "
+                            "arguments get the answer of the first call, "
+                            "whatever has changed since (a file rebuilt, "
+                            "time passed)" % (fn.name, hit[0], _txt(c, 40))))
+                return out
     for r in _own_nodes(fn):
         if isinstance(r, ast.Return) and r.value is not None and \
                 _fresh_mutable(r.value, fn):
@@ -2188,7 +2252,8 @@ def findings(program, modules):
                             ("STALEDEP", lambda d=d: staledep(d)),
                             ("MEMOKEY", lambda d=d: memokey(d)),
                             ("SHALLOWCACHE", lambda d=d: shallowcache(
-                                program, m, d))):
+                                program, m, d)),
+                            ("AXISORDER", lambda d=d: axisorder(d))):
                 for n, text in f():
                     out.append((kind, mname, q, n, text, _txt(n, 50)))
     return out, stats
@@ -2197,7 +2262,8 @@ def findings(program, modules):
 _SELFTEST = []
 KINDS = ("UNDEF", "SELFATTR", "CALLSIG", "EXHAUST", "ITERMUT", "LATEBIND",
          "INTDIV", "SHADOW", "SWALLOW", "UNBOUND", "CACHEDMUT", "SNAPSHOT",
-         "FINALLYLOST", "STALEDEP", "MEMOKEY", "SHALLOWCACHE")
+         "FINALLYLOST", "STALEDEP", "MEMOKEY", "SHALLOWCACHE",
+         "AXISORDER")
 
 
 def selftest():
